@@ -1,27 +1,42 @@
-//! G7 (C06): run the real generator on a .proto with sint32 / sint64 fields and report which
-//! `::pilota::prost::encoding::<module>` codec the emitted Message impl calls for them.
-//! ZigZag (sint32 / sint64 modules) is what the protobuf encoding prescribes; int32 / int64 put
-//! different bytes on the wire for every negative number.
+//! Generator witness for C06 (G7 and later generator findings): run the real generator on a .proto
+//! that has one singular and one repeated field of every scalar type, and report which
+//! `::pilota::prost::encoding::<module>` codec the emitted Message impl calls for each.  The module
+//! fixes the wire type and payload layout (varint / ZigZag / 4 or 8 little-endian bytes), so a wrong
+//! module is a wrong encoding on the wire even where pilota's own round trip stays self-consistent.
 use std::fs;
-const PROTO: &str = "syntax = \"proto3\";\npackage g7;\nmessage S {\n  sint32 a = 1;\n  sint64 b = 2;\n  repeated sint32 c = 3;\n}\n";
+const TYPES: [&str; 15] = ["double", "float", "int32", "int64", "uint32", "uint64", "sint32", "sint64",
+    "fixed32", "fixed64", "sfixed32", "sfixed64", "bool", "string", "bytes"];
 fn main() {
-    let dir = std::env::temp_dir().join(format!("g7_sint_{}", std::process::id()));
+    let mut proto = String::from("syntax = \"proto3\";\npackage g7;\nmessage S {\n");
+    for (i, t) in TYPES.iter().enumerate() {
+        proto += &format!("  {t} s{i} = {};\n  repeated {t} r{i} = {};\n", 100 + i, 200 + i);
+    }
+    proto += "}\n";
+    let dir = std::env::temp_dir().join(format!("g7_scalars_{}", std::process::id()));
     fs::create_dir_all(&dir).unwrap();
-    let proto = dir.join("g7.proto");
-    fs::write(&proto, PROTO).unwrap();
+    let path = dir.join("g7.proto");
+    fs::write(&path, proto).unwrap();
     let out = dir.join("g7.rs");
     pilota_build::Builder::protobuf()
         .ignore_unused(false)
         .include_dirs(vec![dir.clone()])
-        .compile_with_config(vec![pilota_build::IdlService::from_path(proto)], pilota_build::Output::File(out.clone()));
+        .compile_with_config(vec![pilota_build::IdlService::from_path(path)], pilota_build::Output::File(out.clone()));
     let code: String = fs::read_to_string(&out).unwrap().chars().filter(|c| !c.is_whitespace()).collect();
     let _ = fs::remove_dir_all(&dir);
     let mut bad = 0;
-    for (tag, module, func) in [(1, "sint32", "encode"), (2, "sint64", "encode"), (3, "sint32", "encode_repeated")] {
-        let needle = format!("::pilota::prost::encoding::{module}::{func}({tag},");
-        let ok = code.contains(&needle);
-        println!("field {tag}: expected call {needle} -> {}", if ok { "found" } else { "NOT FOUND" });
-        if !ok { bad += 1; }
+    for (i, t) in TYPES.iter().enumerate() {
+        // pilota maps `string` to its faststr codec by default (same wire format: length-delimited UTF-8)
+        let modules: &[&str] = if *t == "string" { &["string", "faststr"] } else { &[*t] };
+        for (tag, func) in [(100 + i, "encode"), (200 + i, "encode_repeated")] {
+            let ok = modules.iter().any(|m| code.contains(&format!("::pilota::prost::encoding::{m}::{func}({tag},")));
+            if !ok {
+                let found: Vec<&str> = code.match_indices(&format!("({tag},")).map(|(j, _)| { let st = code[..j].rfind("encoding::").unwrap_or(j); &code[st..j] }).collect();
+                println!("field {tag} ({}{t}): expected ::pilota::prost::encoding::{}::{func}({tag}, ..) -- calls found for this tag: {:?}",
+                    if func == "encode" { "" } else { "repeated " }, modules[0], found);
+                bad += 1;
+            }
+        }
     }
-    assert!(bad == 0, "sint fields do not use the ZigZag codec");
+    println!("{} scalar types x {{singular, repeated}}: {} wrong codec selections", TYPES.len(), bad);
+    assert!(bad == 0, "a field does not use the codec of its declared type");
 }
